@@ -198,4 +198,25 @@ theorem mpz_set_si_alloc_safe (s : St) (w : Nat) (val : Int) (hs : s.ok = true) 
 
 example : view ((mpz_set_si ex 1 (-5)).h 1) = ⟨2, -1, [5]⟩ ∧ (mpz_set_si ex 1 (-5)).ok = true := by decide
 
+/-- mpz_mul_2exp (mpz/mul_2exp.c): `MPZ_REALLOC (w, |usize| + limb_cnt + 1)` covers the shifted limbs written at
+    `wp + limb_cnt`, the limb shifted out stored at `wp[|usize| + limb_cnt]`, and the zeroed low limbs — also in
+    place (`MPN_ZERO` after the shift, "not to lose for U == W"); exact product. -/
+theorem mpz_mul_2exp_alloc_safe (s : St) (w u : Nat) (cnt : Nat) (hs : s.ok = true)
+    (hw : OWF (s.h w)) (hu : OWF (s.h u)) :
+    Safe s (mpz_mul_2exp s w u cnt) w (Mpz.mul_2exp (view (s.h w)) (view (s.h u)) cnt) ∧
+    Mpz.toInt (view ((mpz_mul_2exp s w u cnt).h w)) = Mpz.toInt (view (s.h u)) * 2 ^ cnt := by
+  have R := mul_2exp_refines s w u cnt hs hw hu
+  have E := Mpz.mpz_mul_2exp_exact (view (s.h w)) (view (s.h u)) cnt hw.2.1 hu.2
+  refine ⟨R.safe E.2, ?_⟩
+  show Mpz.toInt (view ((mul_2exp 1 s w u cnt).h w)) = _
+  rw [R.view]; exact E.1
+
+-- (B^2-1) << 65 in place: block grown 2 → 4, one zero limb below, the bit shifted out in a new top limb
+example : (mpz_mul_2exp ex 1 1 65).ok = true ∧
+    view ((mpz_mul_2exp ex 1 1 65).h 1) = ⟨4, 4, [0, B - 2, B - 1, 1]⟩ := by decide
+-- negative: `wsize = abs_usize + limb_cnt` without the +1 — `wp[wsize] = wlimb` is outside the block
+example : (mul_2exp 0 ex 1 1 65).ok = false := by decide
+-- … which goes unnoticed whenever no bit is shifted out of the top limb
+example : (mul_2exp 0 ex 0 2 65).ok = true := by decide
+
 end Mpir.AllocSafe
